@@ -181,6 +181,7 @@ def function_level(ctx, rows, type_chunks, label, type_keys=None, user_keys=None
     ctx.stats["t_real_function_level_s"] = round(ctx.stats.get("t_real_function_level_s", 0) + time.time() - t_real, 2)
     answers = ctx.driver.batch(reqs)
     breaks = []
+    failures = []
     for (cfg, exp), ans in zip(expected, answers):
         if "error" in ans:
             raise common.Infra(f"driver error in c02.types: {ans['error']}")
@@ -195,11 +196,13 @@ def function_level(ctx, rows, type_chunks, label, type_keys=None, user_keys=None
             for rk, ik in refs.items():
                 ctx.coverage["evaluations"] += 1
                 if got.get(rk) != real[ik]:
-                    key = shape_of(rk, src, cfg)
-                    ctx.report(key, f"written type differs from the reference mapping: {ik} of `{src}`",
-                               {"input": {"type_or_method": src, "prelude": gen_api.TYPE_PRELUDE, "config": cfg["generate"]},
-                                "attribute": ik, "implementation": real[ik], "reference": got.get(rk)})
+                    failures.append((len(src), "types:" + rk[4:], f"written type differs from the reference mapping: {ik} of `{src}`",
+                                     {"input": {"type_or_method": src, "prelude": gen_api.TYPE_PRELUDE, "config": cfg["generate"]},
+                                      "attribute": ik, "implementation": real[ik], "reference": got.get(rk)}))
             ctx.count(key=(kind, shape_class(src)), nontrivial=True, sample={"input": src, "cpp_param": real.get("cpp_param", real.get("cpp_type_spec"))})
+    # smallest failing inputs first (the first VIOLATION line names the shortest type expression that fails)
+    for _, key, what, body in sorted(failures, key=lambda f: (f[0], f[1], f[2])):
+        ctx.report(key, what, body)
     return breaks
 
 
@@ -211,16 +214,6 @@ def shape_class(src: str) -> str:
     for p in gen_api.PRIMS:
         s = s
     return s
-
-
-def shape_of(ref_key: str, src: str, cfg) -> str:
-    """shape signature of a reference-mapping failure (the finding key)"""
-    g = cfg["generate"]
-    if ref_key.startswith("ref_java") and ("u_flags" in src) and (g["java"].get("nonnull_annotation") or g["java"].get("nullable_annotation")):
-        return "java:annotation-on-flags-type-argument"
-    if ref_key.startswith("ref_cli") and "()" in src:
-        return "cppcli:anonymous-function-without-parameters"
-    return "types:" + ref_key[4:]
 
 
 # --------------------------------------------------------------------------------------------------------
@@ -294,14 +287,21 @@ def member_shape(j: dict) -> str:
 
 
 def _file_worker(args):
-    """one generated program: parse, generate four targets, extract every declaration skeleton (runs in a pool)"""
-    seed, pi, base = args
+    """one program: parse, generate four targets, extract every declaration skeleton (runs in a pool).
+    args = (seed, index, scratch dir, None) for a generated program or (…, {"idl", "config"}) for a corpus / replay input"""
+    seed, pi, base, given = args
     import os
     base = Path(base)
-    r = random.Random(f"{seed}/c02/file/{pi}")
-    cfg = gen_api.rand_config(r, base / "out") if pi % 4 else gen_api.default_like_config(base / "out")
-    decls = gen_api.ProgGen(r, base_records=True).program()
-    text = gen_api.render(decls)
+    if given is None:
+        r = random.Random(f"{seed}/c02/file/{pi}")
+        cfg = gen_api.rand_config(r, base / "out") if pi % 4 else gen_api.default_like_config(base / "out")
+        decls = gen_api.ProgGen(r, base_records=True).program()
+        text = gen_api.render(decls)
+    else:
+        text = given["idl"]
+        cfg = {"generate": json.loads(json.dumps(given["config"].get("generate", given["config"])))}
+        for k in cfg["generate"]:
+            cfg["generate"][k]["out"] = str(base / "out" / k)
     res = {"text": text, "cfg": cfg, "reports": [], "stats": [], "cases": []}
     try:
         configured, g = gen_api.parse_program(cfg, text, base)
@@ -348,10 +348,13 @@ def _file_worker(args):
     return res
 
 
-def file_level(ctx, rows, n_programs):
+def file_level(ctx, rows, n_programs, given=None):
     import multiprocessing
     t0 = time.time()
-    jobs = [(ctx.seed, pi, str(ctx.tmp / f"file_{pi}")) for pi in range(n_programs)]
+    corpus_file = common.VERIF / "corpus" / "c02.json"
+    corpus = given if given is not None else (json.loads(corpus_file.read_text()) if corpus_file.exists() else [])
+    jobs = [(ctx.seed, i, str(ctx.tmp / f"corpus_{i}"), c) for i, c in enumerate(corpus)]
+    jobs += [(ctx.seed, pi, str(ctx.tmp / f"file_{pi}"), None) for pi in range(n_programs)]
     with multiprocessing.get_context("fork").Pool(12) as pool:
         results = pool.map(_file_worker, jobs, chunksize=1)
     ctx.stats["t_real_file_level_s"] = round(time.time() - t0, 2)
@@ -391,6 +394,67 @@ def file_level(ctx, rows, n_programs):
     return breaks
 
 
+# --------------------------------------------------------------------------------------------------------
+# identifier conversion
+# --------------------------------------------------------------------------------------------------------
+
+ALL_CASES = ['none', 'camelCase', 'PascalCase', 'snake_case', 'kebab-case', 'TRAIN_CASE']
+TRICKY_IDS = ['a', 'A', 'foo', 'fooBar', 'foo_bar', 'FOO_BAR', 'a__b', 'x1_y2', 'e_', 'e__', 'HTTPReq', 'aB_cD', 'a_1b', 'z9', 'Zed_', 'a_b_c_d', 'ABC', 'lowerUPPER_mix1']
+# outside the IDL grammar (identifiers start with a letter): where `convert_style` needs its hypothesis
+EXCLUDED_POINTS = ['_ab', '__x', '_', '', '_A_b']
+
+
+def rand_identifier(r: random.Random) -> str:
+    letters = "abcdefghijklmnopqrstuvwxyzABCDEFGHIJKLMNOPQRSTUVWXYZ"
+    n = r.randint(1, 14)
+    s = r.choice(letters)
+    for _ in range(n - 1):
+        x = r.random()
+        s += "_" if x < 0.18 else (r.choice("0123456789") if x < 0.3 else r.choice(letters))
+    return s
+
+
+def convert_level(ctx):
+    from pydjinni.parser.identifier import IdentifierType
+    from pydjinni.config.types import IdentifierStyle
+    r = random.Random(f"{ctx.seed}/c02/convert")
+    ids = TRICKY_IDS + [rand_identifier(r) for _ in range(ctx.n(300, 5000))]
+    items, real = [], []
+    for s in ids + EXCLUDED_POINTS:
+        for case in ALL_CASES:
+            for pfx in (None, r.choice(['X', 'k_', 'Pre'])):
+                st = IdentifierStyle(style=case, prefix=pfx) if pfx is not None else IdentifierStyle.Case(case)
+                out = IdentifierType(s).convert(st)
+                items.append({"style": {"case": case, "pfx": pfx}, "s": s})
+                real.append(out)
+    model = ctx.driver.one({"op": "c02.convert", "items": items})
+    spec = ctx.driver.one({"op": "c02.convertSpec", "items": [{**it, "out": o} for it, o in zip(items, real)]})
+    for a in (model, spec):
+        if "error" in a:
+            raise common.Infra("driver error: " + a["error"])
+    breaks = []
+    excluded = {}
+    for it, o, m, ok in zip(items, real, model["out"], spec["out"]):
+        ctx.coverage["evaluations"] += 1
+        if o != m:
+            breaks.append({"attribute": "convert", "input": f"{it['s']!r} as {it['style']}", "implementation": o, "model": m})
+        if it["s"] in EXCLUDED_POINTS:
+            if not ok:
+                excluded[f"{it['s']!r}/{it['style']['case']}"] = o        # documented: outside the grammar, hypothesis of convert_style
+            continue
+        ctx.count(key=("convert", it["style"]["case"], bool(it["style"]["pfx"]), shape_of_id(it["s"])), nontrivial=True,
+                  sample={"identifier": it["s"], "style": it["style"], "converted": o})
+        if not ok:
+            ctx.report("convert:" + it["style"]["case"], f"convert({it['s']!r}, {it['style']}) = {o!r} does not have the shape of the style / loses letters",
+                       {"input": {"identifier": it["s"], "style": it["style"]}, "implementation": o, "model": m})
+    ctx.stats["convert_excluded_points_violating_shape"] = excluded
+    return breaks
+
+
+def shape_of_id(s: str) -> str:
+    return "".join("_" if ch == "_" else ("9" if ch.isdigit() else ("A" if ch.isupper() else "a")) for ch in s)[:6]
+
+
 def run(ctx):
     ctx.coverage["rule"] = ("function level: one case = one (type expression | method signature) under one random configuration; distinct = distinct "
                             "shape (heads, optional marks, modifiers) ; file level: one case = one generated declaration × target, distinct = "
@@ -413,7 +477,7 @@ def run(ctx):
     rs.shuffle(sample)
     chunk = 150
     chunks = [sample[i:i + chunk] for i in range(0, len(sample), chunk)]
-    breaks = function_level(ctx, rows, chunks, "types")
+    breaks = convert_level(ctx) + function_level(ctx, rows, chunks, "types")
     fbreaks = file_level(ctx, rows, ctx.n(40, 400))
     ctx.stats["file_level_breaks"] = len(fbreaks)
     if fbreaks:
@@ -470,5 +534,42 @@ def table_obligations(ctx, rows, checks=C02_TABLE_CHECKS, tag="C02_tables"):
 
 
 def replay(ctx, body):
-    print(json.dumps(body, indent=1)[:3000])
-    return False
+    inp = body["input"]
+    rows = gen_api.builtin_rows()
+    before = len(ctx.violations)
+    if "idl" in inp:
+        breaks = file_level(ctx, rows, 0, given=[{"idl": inp["idl"], "config": {"generate": inp["config"]}}])
+    elif "identifier" in inp:
+        from pydjinni.parser.identifier import IdentifierType
+        from pydjinni.config.types import IdentifierStyle
+        st = inp["style"]
+        style = IdentifierStyle(style=st["case"], prefix=st["pfx"]) if st["pfx"] is not None else IdentifierStyle.Case(st["case"])
+        out = IdentifierType(inp["identifier"]).convert(style)
+        ok = ctx.driver.one({"op": "c02.convertSpec", "items": [{"style": st, "s": inp["identifier"], "out": out}]})["out"][0]
+        print(json.dumps({"implementation": out, "spec_holds": ok}))
+        return bool(ok)
+    else:
+        # a type expression / method signature of the function-level stream, under the recorded configuration
+        src = inp["type_or_method"]
+        line = (src.replace("m(", "m0(", 1) if "m(p:" in src else f"m0(p: {src}) -> {src}") + ";"
+        text = inp["prelude"] + "qq = interface +cpp {\n  " + line + "\n}\n"
+        cfg = {"generate": json.loads(json.dumps(inp["config"]))}
+        for k in cfg["generate"]:
+            cfg["generate"][k]["out"] = str(ctx.tmp / "replay" / k)
+        configured, g = gen_api.parse_program(cfg, text, ctx.tmp / "replay")
+        dump = gen_api.Dump(g.defs).finish()
+        iface = [d for d in g.defs if d.name == "qq"][0]
+        m = iface.methods[0]
+        tr = m.parameters[0].type_ref
+        real = real_type_attrs(tr, m.cpp, m.java, id(tr.type_def) in dump.index)
+        mj = {"params": dump.fields(m.parameters), "ret": dump.type(m.return_type_ref) if m.return_type_ref else None,
+              "static": bool(m.static), "const": bool(m.const), "async": bool(m.asynchronous), "throws": dump.throws(m.throwing)}
+        ans = ctx.driver.one({"op": "c02.types", "cfg": gen_api.lean_cfg(configured.config), "builtins": rows, "udefs": dump.udefs,
+                              "queries": [{"t": dump.type(tr)}, {"m": mj}]})
+        bad = {ik: (real[ik], ans["out"][0][rk]) for rk, ik in REF_KEYS.items() if ans["out"][0][rk] != real[ik]}
+        rm = real_method_attrs(m)
+        bad.update({ik: (rm[ik], ans["out"][1][rk]) for rk, ik in METHOD_REF.items() if ans["out"][1][rk] != rm[ik]})
+        print(json.dumps({"differs (implementation, reference)": bad}, indent=1))
+        return not bad
+    print(json.dumps({"correspondence_breaks": breaks[:3], "violations": ctx.violations[before:]}, indent=1, default=str)[:3000])
+    return len(ctx.violations) == before
